@@ -144,7 +144,10 @@ def run(ctx):
 
 
 # sensitivity pack (thorough tier): each seeded edit must be reported by the named rule instance
-MUTANTS = [{'name': 'epoch-ladder-off-by-one', 'file': 'crates/ordinals/src/epoch.rs', 'old': '    if sat < Self::STARTING_SATS[1] {\n      Epoch(0)\n    } else if sat < Self::STARTING_SATS[2] {', 'new': '    if sat < Self::STARTING_SATS[1] {\n      Epoch(0)\n    } else if sat < Self::STARTING_SATS[3] {', 'expect': ('R29.2', 'From>::from', 'Epoch(1)')},
+MUTANTS = [
+  {'name': 'seeded-C29-a', 'patch': 'C29-a/patch.diff', 'expect': ('R29.1', 'Sat::common', 'shortcut only ever answers true')},
+  {'name': 'seeded-C29-b', 'patch': 'C29-b/patch.diff', 'expect': ('R29.4', 'Sat::nineball', 'accepted numbers are exactly')},
+{'name': 'epoch-ladder-off-by-one', 'file': 'crates/ordinals/src/epoch.rs', 'old': '    if sat < Self::STARTING_SATS[1] {\n      Epoch(0)\n    } else if sat < Self::STARTING_SATS[2] {', 'new': '    if sat < Self::STARTING_SATS[1] {\n      Epoch(0)\n    } else if sat < Self::STARTING_SATS[3] {', 'expect': ('R29.2', 'From>::from', 'Epoch(1)')},
            {'name': 'rarity-supply-wrong', 'file': 'crates/ordinals/src/rarity.rs', 'old': 'Self::Rare => 3_432,', 'new': 'Self::Rare => 3_437,', 'expect': ('R29.1', 'Rarity::supply', 'supply(Rare)')}]
 
 
